@@ -165,62 +165,149 @@ theorem opsWeight_filter (ops : List Op) (p : Op → Bool) : opsWeight (ops.filt
     · rw [opsWeight_cons, opsWeight_cons]; omega
     · rw [opsWeight_cons]; omega
 
+theorem work_lt_of_ops (scope : LockScope) (cfg : Cfg) (th th' : Thread) (h1 : th'.cur = th.cur)
+    (h2 : th'.attempt = th.attempt) (h3 : th'.todo = th.todo) (h4 : opsWeight th'.ops < opsWeight th.ops) :
+    th'.work scope cfg < th.work scope cfg := by
+  unfold Thread.work; rw [h1, h2, h3]; omega
+
+theorem opsWeight_append (a b : List Op) : opsWeight (a ++ b) = opsWeight a + opsWeight b := by
+  simp [opsWeight]
+
+theorem opsWeight_replicate_wait (n : Nat) : opsWeight (List.replicate n Op.wait) = n := by
+  induction n with
+  | zero => rfl
+  | succ n ih => rw [List.replicate_succ, opsWeight_cons, ih]; simp [Op.weight]; omega
+
+theorem attemptOps_weight (r : Req) : opsWeight (attemptOps r) = 11 + r.lat := by
+  simp [attemptOps, opsWeight_cons, opsWeight_append, opsWeight_replicate_wait, Op.weight, opsWeight]
+  omega
+
+theorem backoffOps_weight (scope : LockScope) (cfg : Cfg) : opsWeight (backoffOps scope cfg) ≤ 3 := by
+  unfold backoffOps
+  split
+  · split <;> simp [opsWeight, Op.weight]
+  · simp [opsWeight]
+
+/-- a first read that gets nothing: the read is over, the second read is skipped, the retry loop may add a back-off
+    and one more attempt — paid for by one unit of the retry budget -/
+theorem work_lt_retry (scope : LockScope) (cfg : Cfg) (th th' : Thread) (ops : List Op)
+    (hops : th.ops = .recv1 :: ops) (h1 : th'.cur = th.cur) (h3 : th'.todo = th.todo)
+    (h2 : th'.attempt = if cfg.again th.attempt then th.attempt + 1 else th.attempt)
+    (h4 : th'.ops = retryOps scope cfg th ++ ops.tail) : th'.work scope cfg < th.work scope cfg := by
+  have ht := opsWeight_tail ops
+  have hb := backoffOps_weight scope cfg
+  have ha := attemptOps_weight th.cur
+  have hw : Op.recv1.weight = 5 := rfl
+  have hnil : opsWeight ([] : List Op) = 0 := rfl
+  unfold Thread.work
+  rw [h1, h3, h4, hops, opsWeight_append, opsWeight_cons, hw]
+  cases hag : cfg.again th.attempt with
+  | false =>
+    rw [hag] at h2
+    simp only [Bool.false_eq_true, if_false] at h2
+    rw [h2]
+    have hr : opsWeight (retryOps scope cfg th) ≤ 3 := by
+      unfold retryOps
+      split
+      · simp only [hag, Bool.false_eq_true, if_false, List.append_nil]; exact hb
+      · rw [hnil]; omega
+    omega
+  | true =>
+    rw [hag] at h2
+    simp only [if_true] at h2
+    rw [h2]
+    have hre : cfg.retryOnEmpty = true := by
+      cases h : cfg.retryOnEmpty with
+      | true => rfl
+      | false => simp [Cfg.again, h] at hag
+    have hlt : th.attempt < cfg.retries := by simpa [Cfg.again, hre] using hag
+    have hr : opsWeight (retryOps scope cfg th) ≤ 3 + (11 + th.cur.lat) := by
+      unfold retryOps
+      simp only [hre, if_true, hag, opsWeight_append, ha]
+      omega
+    have e : cfg.retries - th.attempt = (cfg.retries - (th.attempt + 1)) + 1 := by omega
+    rw [e, Nat.add_mul, Nat.one_mul]
+    unfold retryCost
+    omega
+
+/-- closes `work th' < work th` when the step only shortens the operation list -/
+macro "work_ops" : tactic =>
+  `(tactic| (apply work_lt_of_ops <;>
+      first | rfl | (simp [upd]; done) | (simp [upd, *, opsWeight_cons, Op.weight] <;> omega)))
+
 theorem stepOp_work (scope : LockScope) (s : State) (t : Nat) (ops : List Op) (op : Op)
     (hops : (s.threads t).ops = op :: ops) (hr : runnable scope s t = true) :
-    ((stepOp scope s t (s.threads t) ops op).threads t).work scope < (s.threads t).work scope := by
-  have hw : (s.threads t).work scope =
-      op.weight + opsWeight ops + ((s.threads t).todo.map (fun r => 3 + opsWeight (txnOps scope r))).sum := by
-    simp [Thread.work, hops, opsWeight_cons]
-  rw [hw]
+    ((stepOp scope s t (s.threads t) ops op).threads t).work scope s.cfg < (s.threads t).work scope s.cfg := by
   have h1 := weight_pos op
   have htail := opsWeight_tail ops
   have hfil := opsWeight_filter ops (fun o => o == .release || o == .crelease)
   have hfil' := opsWeight_filter ops (· == .crelease)
+  have hdrop := opsWeight_drop ops 3
+  have h0 : opsWeight ([] : List Op) = 0 := rfl
   cases op <;> simp only [stepOp, raiseOut]
   case acquire =>
     simp only [runnable, hops] at hr
     split
-    · simp [upd, Thread.work, Op.weight]
+    · work_ops
     · rename_i k hk
       rw [hk] at hr
       simp only at hr
       unfold lockAcquire
       split at hr
-      · rename_i hl; simp [hl, upd, Thread.work, Op.weight]
+      · rename_i hl
+        simp only [hl]
+        work_ops
       · rename_i o d hl
         have : o = t := by simpa using hr
-        simp [hl, this, upd, Thread.work, Op.weight]
+        simp only [hl, this, if_true]
+        work_ops
   case cacquire =>
     simp only [runnable, hops] at hr
     unfold lockAcquire
     split at hr
-    · rename_i hl; simp [hl, upd, Thread.work, Op.weight]
+    · rename_i hl
+      simp only [hl]
+      work_ops
     · rename_i o d hl
       have : o = t := by simpa using hr
-      simp [hl, this, upd, Thread.work, Op.weight]
-  case release => split <;> simp [upd, Thread.work, Op.weight]
-  case peek =>
-    have hd := opsWeight_drop ops 3
-    split <;> simp [upd, Thread.work, Op.weight, *] <;> omega
-  case «open» =>
-    split
-    · simp [upd, Thread.work, Op.weight]
-    · have h0 : opsWeight [] = 0 := rfl
-      cases scope <;> simp [upd, Thread.work, Op.weight] <;> omega
-  case iopen => split <;> simp [upd, Thread.work, Op.weight] <;> omega
-  case flush => split <;> simp [upd, Thread.work, Op.weight] <;> omega
-  case connect => split <;> simp [upd, Thread.work, Op.weight, opsWeight_cons] <;> omega
-  case preconnect => split <;> simp [upd, Thread.work, Op.weight, opsWeight_cons] <;> omega
-  case send2 => split <;> (try split) <;> simp [upd, Thread.work, Op.weight] <;> omega
-  case recv2 => split <;> simp [upd, Thread.work, Op.weight] <;> omega
+      simp only [hl, this, if_true]
+      work_ops
   case recv1 =>
     split
-    · simp [upd, Thread.work, Op.weight]; omega
-    · split <;> (try split) <;> simp [upd, Thread.work, Op.weight] <;> omega
-  all_goals simp [upd, Thread.work, Op.weight]
+    · work_ops
+    · split
+      · split
+        · exact work_lt_retry scope s.cfg _ _ ops hops (by simp [upd]) (by simp [upd]) (by simp [upd])
+            (by simp [upd])
+        · work_ops
+      · split
+        · work_ops
+        · exact work_lt_retry scope s.cfg _ _ ops hops (by simp [upd]) (by simp [upd]) (by simp [upd])
+            (by simp [upd])
+  case «open» =>
+    split
+    · work_ops
+    · apply work_lt_of_ops <;> first | rfl | (simp [upd]; done) |
+        (cases scope <;> simp [upd, hops, opsWeight_cons, Op.weight] <;> omega)
+  all_goals (repeat' split) <;> work_ops
+
+theorem stepOp_cfg (scope : LockScope) (s : State) (t : Nat) (th : Thread) (ops : List Op) (op : Op) :
+    (stepOp scope s t th ops op).cfg = s.cfg := by
+  cases op <;> simp only [stepOp, raiseOut] <;> (repeat' split) <;> rfl
+
+theorem step_cfg (scope : LockScope) (s : State) (t : Nat) : (step scope s t).cfg = s.cfg := by
+  unfold step
+  split
+  · split <;> rfl
+  · exact stepOp_cfg _ _ _ _ _ _
+
+theorem run_cfg (scope : LockScope) (s : State) (l : List Nat) : (runSched scope s l).cfg = s.cfg := by
+  induction l generalizing s with
+  | nil => rfl
+  | cons t l ih => exact (ih _).trans (step_cfg scope s t)
 
 theorem step_work (scope : LockScope) (s : State) (t : Nat) (hr : runnable scope s t = true) :
-    ((step scope s t).threads t).work scope < (s.threads t).work scope := by
+    ((step scope s t).threads t).work scope s.cfg < (s.threads t).work scope s.cfg := by
   unfold step
   split
   · rename_i h0
@@ -228,21 +315,24 @@ theorem step_work (scope : LockScope) (s : State) (t : Nat) (hr : runnable scope
     · rename_i h1
       simp [runnable, h0, h1] at hr
     · rename_i r rest h1
-      simp [stepBegin, upd, Thread.work, h0, h1, opsWeight]
+      simp only [stepBegin, upd, if_true, Thread.work, h0, h1, List.map_cons, List.sum_cons]
+      have : opsWeight ([] : List Op) = 0 := rfl
+      simp only [this, Nat.sub_zero]
+      omega
   · rename_i op ops h0
     exact stepOp_work scope s t ops op h0 hr
 
-theorem totalWork_congr (scope : LockScope) (s s' : State) (n : Nat)
-    (h : ∀ u, u < n → (s'.threads u).work scope = (s.threads u).work scope) :
+theorem totalWork_congr (scope : LockScope) (s s' : State) (n : Nat) (hc : s'.cfg = s.cfg)
+    (h : ∀ u, u < n → (s'.threads u).work scope s.cfg = (s.threads u).work scope s.cfg) :
     totalWork scope s' n = totalWork scope s n := by
   induction n with
   | zero => rfl
   | succ n ih =>
     simp only [totalWork]
-    rw [ih (fun u hu => h u (by omega)), h n (by omega)]
+    rw [ih (fun u hu => h u (by omega)), hc, h n (by omega)]
 
 theorem work_le_total (scope : LockScope) (s : State) (n t : Nat) (ht : t < n) :
-    (s.threads t).work scope ≤ totalWork scope s n := by
+    (s.threads t).work scope s.cfg ≤ totalWork scope s n := by
   induction n with
   | zero => omega
   | succ n ih =>
@@ -259,12 +349,13 @@ theorem totalWork_step_lt (scope : LockScope) (s : State) (t n : Nat) (ht : t < 
     simp only [totalWork]
     by_cases h : t = n
     · subst h
-      have e := totalWork_congr scope s (step scope s t) t
+      have e := totalWork_congr scope s (step scope s t) t (step_cfg scope s t)
         (fun u hu => by rw [step_threads_other scope s t u (by omega)])
       have := step_work scope s t hr
+      rw [step_cfg]
       omega
     · have := ih (by omega)
-      rw [step_threads_other scope s t n (fun e => h e.symm)]
+      rw [step_threads_other scope s t n (fun e => h e.symm), step_cfg]
       omega
 
 theorem totalWork_step_le (scope : LockScope) (s : State) (t n : Nat) :
@@ -274,7 +365,7 @@ theorem totalWork_step_le (scope : LockScope) (s : State) (t n : Nat) :
   | true =>
     by_cases ht : t < n
     · exact Nat.le_of_lt (totalWork_step_lt scope s t n ht hr)
-    · exact Nat.le_of_eq (totalWork_congr scope s _ n
+    · exact Nat.le_of_eq (totalWork_congr scope s _ n (step_cfg scope s t)
         (fun u hu => by rw [step_threads_other scope s t u (by omega)]))
 
 theorem runSched_append (scope : LockScope) (s : State) (a b : List Nat) :
